@@ -256,6 +256,18 @@ func missingFor(src string, canon, single *world.PluginResult) string {
 	return ""
 }
 
+// extraFor reports a file the single-file run of src emitted that the all-together run does
+// not emit at all: the set of outputs of a source must not shrink because sibling files are
+// generated in the same invocation.
+func extraFor(canon, single *world.PluginResult) string {
+	for _, name := range single.Order {
+		if _, ok := canon.Files[name]; !ok {
+			return name
+		}
+	}
+	return ""
+}
+
 func firstDiffLines(a, b string) string {
 	al, bl := strings.Split(a, "\n"), strings.Split(b, "\n")
 	for i := 0; i < len(al) && i < len(bl); i++ {
@@ -351,6 +363,8 @@ func (e *c15Env) checkWorld(w *spec.World, mapSeeds int, seed int64) []*c15Findi
 					report(v, f, "output for "+paths[i]+" changes when the other files are generated in the same invocation: "+d)
 				} else if m := missingFor(paths[i], canon, single); m != "" && single.Error == "" && canon.Error == "" {
 					report(v, m, "generating "+paths[i]+" alone does not emit "+m+", which the same invocation emits when the other files are generated too")
+				} else if x := extraFor(canon, single); x != "" && single.Error == "" && canon.Error == "" {
+					report(v, x, "generating "+paths[i]+" alone emits "+x+", which is missing when the other files are generated in the same invocation")
 				}
 				tup(v.Kind)
 			}
@@ -387,6 +401,8 @@ func (e *c15Env) checkWorld(w *spec.World, mapSeeds int, seed int64) []*c15Findi
 					report(v, f, "output for "+paths[i]+" changes when the other file is generated in the same invocation: "+d)
 				} else if m := missingFor(paths[i], canon, single); m != "" && single.Error == "" && canon.Error == "" {
 					report(v, m, "generating "+paths[i]+" alone does not emit "+m+", which the same invocation emits when the other file is generated too")
+				} else if x := extraFor(canon, single); x != "" && single.Error == "" && canon.Error == "" {
+					report(v, x, "generating "+paths[i]+" alone emits "+x+", which is missing when the other file is generated in the same invocation")
 				}
 				tup(v.Kind)
 				// the other file absent from the request altogether
